@@ -107,7 +107,7 @@ def parse_output(r):
 
 JAVA_OPTS = "-XX:+UseParallelGC -Xss64m -Xmx%s -Xms%s"
 
-_edge = re.compile(r'^<<"E", <<(-?\d+), (-?\d+)>>, <<(-?\d+), (-?\d+)>>, (\d), "(.*)">>$')
+_edge = re.compile(r'^<<"E", <<(-?\d+), (-?\d+)>>, <<(-?\d+), (-?\d+)>>, (\d), "(.*)", "(.*)">>$')
 _init = re.compile(r'^<<"I", <<(-?\d+), (-?\d+)>>, "(.*)">>$')
 
 
@@ -123,6 +123,7 @@ class Graph:
         self.prog = {}      # init node -> program
         self.done = set()   # nodes in which every thread has finished (AllDone)
         self.cdone = set()  # nodes in which every client program has finished
+        self.blocked = {}   # node -> {thread: what it is parked in front of} (operations that cannot complete)
 
     def edges(self):
         return sum(len(v) for v in self.succ.values())
@@ -165,6 +166,9 @@ def graph(d, module, cfg_text, timeout=900, heap="6g", workers=12):
                         g.done.add(v)
                     if m.group(5) in ("2", "3"):
                         g.cdone.add(v)
+                    bl = json.loads(_unq(m.group(7)))
+                    if bl:
+                        g.blocked[v] = bl if isinstance(bl, dict) else {}
             elif line.startswith('<<"I"'):
                 m = _init.match(line.rstrip("\n"))
                 u = m.group(1) + ":" + m.group(2)
